@@ -210,6 +210,10 @@ def run(repo: Repo, rep: Report, tier: str) -> None:
                     for k_ in eliminators:
                         if t_.startswith(k_.name + "(") and t_.endswith(".replacements"):
                             applied.add(k_.name)
+                        # loop form: `for p in (A(), B()): ir = p.optimize(ir); repoint(refs, p.replacements)`
+                        m_ = re.fullmatch(r"ELEM\(\((.*)\)\)\.replacements", t_)
+                        if m_ and re.search(rf"\b{k_.name}\(", m_.group(1)):
+                            applied.add(k_.name)
         missing = sorted({call_name(c) for c in used} - applied)
         handed = [ccf.text(kwarg(c, "signal_refs")) for c in calls_in(cf.node, "LayoutPlanner") if kwarg(c, "signal_refs") is not None]
         repointed_objs = {t_ for c_ in calls_in(cf.node) for t_ in [ccf.text(a_) for a_ in c_.args[:1]] if t_.endswith(".signal_refs") and any(ccf.text(a2).endswith(".replacements") for a2 in c_.args[1:])}
